@@ -3,7 +3,8 @@ from . import core, boolfam
 
 RULE = ("every (clip type, fill rule, PreserveCollinear, ReverseSolution) executed into Paths and into a PolyTree64 on: deep nests (recursive "
         "boxes to depth 6, rings split at random between subject and clip), TLC-certified general-position polygons, winding ladders and "
-        "rectilinear walks on even coordinates (features >= 2 apart, coincident edges / touching holes / horizontal joins); TLC compares the "
+        "rectilinear walks on even coordinates (features >= 2 apart, coincident edges / touching holes / horizontal joins), and arbitrary random polygons "
+        "(no certificate: only containment clauses, only when the output rings are simple and apart); TLC compares the "
         "tree's rings with the paths result (bag of canonical rings), recomputes the containment depth of every node from the ring geometry "
         "(independent nesting oracle) and checks level/orientation, child-in-parent, sibling disjointness, area; PolyTreeD shape vs PolyTree64 is "
         "checked under C16; non-trivial = non-empty solution, distinct by (input, solution)")
@@ -24,6 +25,10 @@ def run(ctx):
         add("plain", fam="ringrect", n=120 if q else 700, emb="0", cfg="lite" if k % 2 else "full", seed=s * 100 + 80 + k)
     for k in range(8 if q else 32):   # unions of 5-8 mixed-orientation rectangles on even coordinates: rings split, absorbed and re-split by horizontal joins
         add("plain", fam="rects", n=800 if q else 2500, grid=8, kmin=5, kmax=8, subjonly=1, mul=2, emb="0", cfg="lite", cts="2", frs="0,1", seed=s * 100 + 90 + k)
+    for k in range(8 if q else 16):   # "loose": arbitrary random polygons (no input certificate, crossings a fraction of a unit apart: contours that pinch after
+        # rounding and are split while the tree is built); only the tree's own consistency is judged, and only when the output rings are simple and apart
+        add("plain", fam="gps", gpt=0, n=700 if q else 1500, emb="0", npts=8, cfg="lite", cts="1,2,3,4", frs="0,1", seed=s * 1000 + 500 + k,
+            R=[200, 1000, 400][k % 3], maxpaths=1 + k % 3, maxv=6 + 2 * (k % 4))
     if not q:
         for k in range(8):
             add("plain", fam="nest", n=60, emb="2,3", npts=40, cfg="lite", seed=s * 100 + 60 + k)
